@@ -146,6 +146,8 @@ _load_extra()
 
 # W-PIPE halves of properties whose other half lives in another world's registry file
 _EXTRA_BATCHES = {
+    # second sentence of C02: real workers, stored results at quiescence vs a from-scratch evaluation
+    'C02': [dict(name='real-workers-end-state', world='worlds.realw', cfg=dict(prop='C02', faults=False), runs=dict(quick=160, thorough=8000), chunk=4)],
     # variant (B): engine on disk, real scanner, real module reloading at every software update
     'C09': [dict(name='disk-reload-history', world='worlds.disk', cfg=dict(prop='C09', faults=False, events=8, max_total=8, max_pkgs=4), runs=dict(quick=300, thorough=15000))],
     'C15': [dict(name='disk-reload-history', world='worlds.disk', cfg=dict(prop='C15', faults=False, events=8, graph_edits=False), runs=dict(quick=300, thorough=15000))],
